@@ -385,7 +385,10 @@ fn run_case(case: &Case, ctx: &Ctx) -> Result<Stats, Outcome> {
     // Is the cut between the first write of a pre-save listener (published-object
     // set, task queue) and the write of the command it belongs to? The fault-free
     // twin made the same writes in the same order.
-    let in_presave_window = points.get(k - 1).map(|p| p.in_cmd).unwrap_or(false);
+    // (the RRDP update task is queued by the repository manager after it stored a
+    // publication, never by a pre-save listener: losing it is the lost-task finding)
+    let rrdp_task_cut = site.contains("update_rrdp_if_needed");
+    let in_presave_window = points.get(k - 1).map(|p| p.in_cmd).unwrap_or(false) && !rrdp_task_cut;
     if std::env::var("KVH_C08_DEBUG").is_ok() {
         for (i, p) in points.iter().enumerate().take(k + 2) {
             eprintln!("point {} {}:{} {} in_cmd={}", i + 1, p.kind, p.op, p.path.strip_prefix(&dir_a).unwrap_or(&p.path).display(), p.in_cmd);
